@@ -91,6 +91,7 @@ package xmodel
 //@ func XModel.fetchVersionedData
 //@   noverify
 //@   noeffects
+//@   pure
 //@   assumes data_of_the_asked_version: result1 == nil ==> result0 != nil && result0.RefTxid != nil && MakeVersion(result0.RefTxid, result0.RefOffset) == version
 
 // The version a transaction is checked against: the one written earlier in this
@@ -128,9 +129,25 @@ package xmodel
 //@ macro outKey(tx, o) = rawKeyOf(tx.TxOutputsExt[o].Bucket, tx.TxOutputsExt[o].Key)
 //@ macro nonTransient(tx, o) = tx.TxOutputsExt[o].Bucket != TransientBucket
 //@ macro cachedUpTo(s, tx, n) = (forall o int :: 0 <= o && o < n && nonTransient(tx, o) ==> (exists o2 int :: o <= o2 && o2 < n && nonTransient(tx, o2) && outKey(tx, o2) == outKey(tx, o) && cachedVer(s, outKey(tx, o)) == boxed(MakeVersion(tx.Txid, o2))))
+// C01: the pointer records. liveKey / gcKey: the live-pointer and recycle-table keys of
+// a raw key; bop / bvs: operation (1 put, 2 delete) and value the batch holds for a key.
+//@ macro liveKey(k) = xldgpb.ExtUtxoTablePrefix + k
+//@ macro gcKey(k) = xldgpb.ExtUtxoDelTablePrefix + k
+//@ macro bop(batch, k) = sel(sel(batchOp, ifacePtr(batch)), k)
+//@ macro bvs(batch, k) = str(sel(sel(batchVal, ifacePtr(batch)), k))
+//@ macro isDelOut(tx, o) = str(tx.TxOutputsExt[o].Value) == "\x00"
+//@ macro lastWriter(tx, o, n) = nonTransient(tx, o) && (forall o2 int :: o < o2 && o2 < n && nonTransient(tx, o2) ==> outKey(tx, o2) != outKey(tx, o))
+//@ macro movedTo(tx, batch, n) = (forall o int :: 0 <= o && o < n && lastWriter(tx, o, n) ==> (isDelOut(tx, o) ? bop(batch, liveKey(outKey(tx, o))) == 2 && bop(batch, gcKey(outKey(tx, o))) == 1 && bvs(batch, gcKey(outKey(tx, o))) == MakeVersion(tx.Txid, o) : bop(batch, liveKey(outKey(tx, o))) == 1 && bvs(batch, liveKey(outKey(tx, o))) == MakeVersion(tx.Txid, o)))
 //@ func XModel.updateExtUtxo
 //@   property C03
+//@   uses concatLeftCancel
+//@   uses concatPrefixDistinct
 //@   ensures never_fails: result == nil
+//@   uses concatFirstChar
+//@   ensures [C01] pointer_moves_to_the_written_version: movedTo(tx, batch, len(tx.TxOutputsExt))
+//@   ensures [C01] only_pointer_tables_written: forall k string :: k[0] != 90 ==> bop(batch, k) == old(bop(batch, k))
+//@   loop 1 invariant [C01] only_pointer_tables_so_far: forall k string :: k[0] != 90 ==> bop(batch, k) == old(bop(batch, k))
+//@   loop 1 invariant [C01] moved_so_far: 0 <= $i && $i <= len(tx.TxOutputsExt) && movedTo(tx, batch, $i)
 //@   ensures written_versions_cached: len(tx.Blockid) > 0 ==> cachedUpTo(s, tx, len(tx.TxOutputsExt))
 //@   loop 1 invariant cached_so_far: 0 <= $i && $i <= len(tx.TxOutputsExt) && s.batchCache == old(s.batchCache) && (len(tx.Blockid) > 0 ==> cachedUpTo(s, tx, $i))
 
@@ -143,3 +160,33 @@ package xmodel
 //@   at XModel.verifyOutputs assert same_transaction: $0 == tx
 //@   at XModel.updateExtUtxo assert only_after_both_checks: err == nil && $0 == tx && $1 == batch
 //@   ensures refused_writes_nothing: result != nil ==> batchOp == old(batchOp) && batchVal == old(batchVal)
+//@   ensures [C01] only_pointer_tables_written: forall k string :: k[0] != 90 ==> bop(batch, k) == old(bop(batch, k))
+
+// ======================= C01: undo moves every pointer back =======================
+// citedUpTo(tx, k, n): the version the transaction cites for raw key k among its first
+// n key inputs (the last matching input wins, "" when there is none).
+//@ spec func citedUpTo(tx *xldgpb.Transaction, k string, n int) string = n <= 0 ? "" : (rawKeyOf(tx.TxInputsExt[n - 1].Bucket, tx.TxInputsExt[n - 1].Key) == k ? verOfInput(tx.TxInputsExt[n - 1]) : citedUpTo(tx, k, n - 1))
+//@ macro citedVer(tx, o) = citedUpTo(tx, outKey(tx, o), len(tx.TxInputsExt))
+//@ macro citedIsDel(s, tx, o) = str(s.fetchVersionedData(tx.TxOutputsExt[o].Bucket, citedVer(tx, o)).PureData.Value) == "\x00"
+// For every key the transaction wrote (its last output for that key), the undo batch
+// puts the pointers back to where the cited version says they were: no version ->
+// no live pointer and, if the undone write was a delete, no recycle entry either;
+// a deleted version -> recycle entry at that version, no live pointer; a live
+// version -> live pointer at that version and, if the undone write was a delete, no
+// recycle entry. The batch cache shows the cited version.
+//@ macro movedBack(s, tx, batch, n) = (forall o int :: 0 <= o && o < n && lastWriter(tx, o, n) ==> (citedVer(tx, o) == "" ? bop(batch, liveKey(outKey(tx, o))) == 2 && (isDelOut(tx, o) ==> bop(batch, gcKey(outKey(tx, o))) == 2) : (citedIsDel(s, tx, o) ? bop(batch, gcKey(outKey(tx, o))) == 1 && bvs(batch, gcKey(outKey(tx, o))) == citedVer(tx, o) && bop(batch, liveKey(outKey(tx, o))) == 2 : bop(batch, liveKey(outKey(tx, o))) == 1 && bvs(batch, liveKey(outKey(tx, o))) == citedVer(tx, o) && (isDelOut(tx, o) ==> bop(batch, gcKey(outKey(tx, o))) == 2))))
+//@ func XModel.UndoTx
+//@   property C01
+//@   uses concatLeftCancel
+//@   uses concatPrefixDistinct
+//@   ensures pointer_moves_back_to_the_cited_version: result == nil ==> movedBack(s, tx, batch, len(tx.TxOutputsExt))
+//@   ensures cache_is_of_this_batch: s.lastBatch == batch
+//@   loop 1 invariant cited_versions: 0 <= $i && $i <= len(tx.TxInputsExt) && inputVersionMap != nil && (forall k string :: inputVersionMap[k] == citedUpTo(tx, k, $i))
+//@   loop 2 invariant moved_back_so_far: 0 <= $i && $i <= len(tx.TxOutputsExt) && inputVersionMap != nil && (forall k string :: inputVersionMap[k] == citedUpTo(tx, k, len(tx.TxInputsExt))) && movedBack(s, tx, batch, $i) && s.lastBatch == batch
+
+// Undo cancels play, per key: whatever shape the write had, starting from the pointer
+// state the cited version describes (the state play requires), play followed by undo
+// ends in that same pointer state. e / g: live pointer and recycle entry as
+// (present, version); the lemma composes the two contracts above.
+//@ lemma undo_cancels_play_per_key: forall cited string, citedDel bool, ver string, isDel bool, e0 bool, ev0 string, g0 bool, gv0 string :: (cited == "" ? !e0 && !g0 : (citedDel ? !e0 && g0 && gv0 == cited : e0 && ev0 == cited && !g0)) ==> ((cited == "" ? false : (citedDel ? false : true)) == e0 && (cited == "" ? "" : (citedDel ? "" : cited)) == (e0 ? ev0 : "") && (cited == "" ? (isDel ? false : g0) : (citedDel ? true : (isDel ? false : g0))) == g0 && (cited != "" && citedDel ==> gv0 == cited))
+//@   property C01
